@@ -12,6 +12,11 @@ from vlib import log
 
 CHECKS = {}
 
+# extra build arguments per harness
+HARNESS_KW = {
+    "h_arena": {"libs": ["-Wl,--wrap=mmap,--wrap=munmap,--wrap=mprotect,--wrap=madvise"]},
+}
+
 # monitor -> properties whose statement the monitor implements
 MON_OWNERS = {
     "M-disjoint": ["C01", "C02", "C03"],
@@ -65,7 +70,7 @@ def run_explore_check(prop, tier, jobs, only=None, time_s=None, note="", assumpt
         exes[key] = None
     import concurrent.futures as cf
     with cf.ThreadPoolExecutor(8) as ex:
-        futs = {ex.submit(vlib.build_harness, f"harness/{h}.cpp", cfg): (h, cfg) for (h, cfg) in exes}
+        futs = {ex.submit(vlib.build_harness, f"harness/{h}.cpp", cfg, **HARNESS_KW.get(h, {})): (h, cfg) for (h, cfg) in exes}
         for f in cf.as_completed(futs):
             exes[futs[f]] = f.result()  # BuildError propagates
     per_job_time = max(20, int(budget - (time.time() - t0) - 10)) if tier != "quick" else 35
@@ -183,7 +188,7 @@ def replay(prop, path):
         return r.returncode
     if rec.get("kind") == "enum":
         return replay_enum(rec)
-    exe = vlib.build_harness(f"harness/{rec['harness']}.cpp", rec["cfg"])
+    exe = vlib.build_harness(f"harness/{rec['harness']}.cpp", rec["cfg"], **HARNESS_KW.get(rec["harness"], {}))
     argv = [exe] + shlex.split(rec["args"]) + ["--replay", ",".join(str(o) for o in rec["ops"])]
     print("replaying:", " ".join(argv))
     print("expected :", rec["monitor"], rec["tag"], "-", rec["detail"])
@@ -356,11 +361,14 @@ def arena_suite(tier, cfgs, extra="", need=()):
     out = []
     q = tier == "quick"
     for cfg in cfgs:
-        for src in ("constant", "fixed", "static") + (() if q else ("growing",)):
+        for src in ("constant", "fixed", "static", "virtual") + (() if q else ("growing",)):
             for cached in (1, 0):
                 L = 4 if (q or src == "growing") else 5
                 B = 3 if src == "growing" else 4
-                args = _shrink(f"--src {src} --cached {cached} --bs 64 --storage 192 --L {L} --B {B} --arena 2048", extra, tier).replace(" --twin 0", "")
+                if src == "virtual":
+                    args = _shrink(f"--src virtual --cached {cached} --storage 12288 --L {min(L, 3)} --B 2 --arena 32768", extra, tier).replace(" --twin 0", "")
+                else:
+                    args = _shrink(f"--src {src} --cached {cached} --bs 64 --storage 192 --L {L} --B {B} --arena 2048", extra, tier).replace(" --twin 0", "")
                 nd = ("reused_cached_block",) if cached else ("acquired_fresh_block",)
                 out.append(J("h_arena", cfg, f"{args} {extra}".strip(), name=f"arena/{src}/{'cached' if cached else 'uncached'}[{cfg}] {extra}".strip(),
                              need=nd + tuple(need), moves=_mv(extra)))
@@ -538,7 +546,7 @@ def _run_enum(prop, tier, jobs, budget=None, harness_kw=None):
     exes = {}
     keys = sorted({(j["h"], j["cfg"]) for j in jobs})
     with cf.ThreadPoolExecutor(8) as ex:
-        futs = {ex.submit(vlib.build_harness, f"harness/{h}.cpp", cfg, **(harness_kw or {})): (h, cfg) for (h, cfg) in keys}
+        futs = {ex.submit(vlib.build_harness, f"harness/{h}.cpp", cfg, **(harness_kw or HARNESS_KW.get(h, {}))): (h, cfg) for (h, cfg) in keys}
         for f in cf.as_completed(futs):
             exes[futs[f]] = f.result()
     argv_jobs = [(j["name"], [exes[(j["h"], j["cfg"])]] + shlex.split(j["args"]) + ["--tier", tier]) for j in jobs]
@@ -611,7 +619,7 @@ def _report_enum_viol(prop, viol, errors):
 
 
 def replay_enum(rec):
-    exe = vlib.build_harness(f"harness/{rec['harness']}.cpp", rec["cfg"])
+    exe = vlib.build_harness(f"harness/{rec['harness']}.cpp", rec["cfg"], **HARNESS_KW.get(rec["harness"], {}))
     argv = [exe] + shlex.split(rec["args"]) + ["--replay", json.dumps(rec["input"])]
     print("replaying:", " ".join(shlex.quote(a) for a in argv))
     print("expected :", rec["tag"], "-", rec["detail"])
